@@ -46,9 +46,17 @@ FZ_ENV = {
 
 def fuzz_key(text, rc):
     """stable key of one artifact replay (stderr of the target run on that single input)"""
-    m = re.search(r"ERROR: libFuzzer: ([a-z-]+)", text)
-    if m and "AddressSanitizer" not in text and "runtime error" not in text:
-        kind = m.group(1)
+    if "ERROR: AddressSanitizer" in text:
+        return runner.crash_key(text, rc if rc else 1)
+    m = re.search(r"ERROR: libFuzzer: ([a-z-]+(?: signal)?)", text)
+    if m:   # deadly signal (abort/assert outside the sanitizers), timeout, out-of-memory
+        a = re.search(r"Assertion `(.+?)' failed", text)
+        if a:
+            return runner.crash_key(text, rc if rc else 1)
+        kind = m.group(1).replace(" ", "-")
+        f = re.search(r"Fatal error: ([^\n]+)", text)
+        if f:
+            kind += "(" + re.sub(r"[^A-Za-z]+", "-", f.group(1)).strip("-")[:30] + ")"
         fr = runner._demangle_first_lib_frame(text[m.start():])
         return "fuzz/%s/%s" % (kind, "/".join(fr[:2]) if fr else "?")
     return runner.crash_key(text, rc if rc else 1)
@@ -105,7 +113,7 @@ def main():
         elif k < start or (nshards > 1 and k % nshards != shard):
             continue
         binary = opt["bin_" + t]
-        runs = int(float(opt.get("runs", "150000")))
+        runs = int(float(opt.get("runs_" + t, opt.get("runs", "150000"))))
         maxcrash = int(opt.get("maxcrash", "12"))
         desc = json.dumps(dict(e="fuzz/" + t, runs=runs, seed=seed))
         emit(dict(t="begin", case=k, desc=desc))
